@@ -235,6 +235,32 @@ def marker_radix(F, rep, rule="C14.marker-radix"):
                    else ("%d move(s) of stripped text, all behind `radix == 16`" % len(set(movers)) if movers else "no move of the stripped text found"),
                    pc.span, fn=run_.path, key=key)
     rep.floor(rule + " parses of marker-stripped text", n, 4)
+    # `from_str_radix` takes a leading sign: after a marker (`0x`, `0b`) only digits of the base may follow, so the text behind the marker is
+    # tested for its first character (starts_with with a pattern that is not a constant string, or a char-class test) before it is parsed
+    m = 0
+    for variant, blocks in sorted(arms.items()):
+        strips = [c for c in run_.calls() if c.bb in blocks and c.args and len(c.args) > 1 and (mir.op_const(c.args[1]) or {}).get("str") in ("0x", "0b")
+                  and mir.short(c.callee()) in ("str::strip_prefix", "str::starts_with", "str::trim_start_matches")]
+        radix_parses = [c for c in run_.calls() if c.bb in blocks and mir.short(c.callee()).endswith("::from_str_radix")]
+        if not strips or not radix_parses:
+            continue
+        m += 1
+        tests = []
+        for c in run_.calls():
+            if c.bb not in blocks:
+                continue
+            nm = mir.short(c.callee())
+            if nm == "str::starts_with" and len(c.args) > 1 and mir.op_const(c.args[1]) is None:
+                tests.append(c)
+            elif nm.endswith(("::is_ascii_hexdigit", "::is_ascii_digit", "::is_digit", "::to_digit")):
+                tests.append(c)
+        # ... and the test sits between the strip and the parse
+        between = [t_ for t_ in tests if any(t_.bb in run_.reachable(s_.target) for s_ in strips if s_.target is not None)
+                   and any(p_.bb in run_.reachable(t_.target) for p_ in radix_parses if t_.target is not None)]
+        rep.ob(rule, "%s: behind the marker only digits of the base are taken (no sign)" % variant, "ok" if between else "violated",
+               "" if between else "the text behind the marker goes to from_str_radix untested: \"0b+1\".parse_byte() is 1", strips[0].span, fn=run_.path,
+               key="%s|digits-after-marker|%s" % (rule, variant))
+    rep.floor(rule + " arms that strip a marker and parse with a radix", m, 3)
 
 
 def _text_through(call, derived_args):
